@@ -44,7 +44,7 @@ def parse_binning(binning: NDArray | None, *, optional: bool = False) -> NDArray
     if binning.ndim != 1 or len(binning) < 2:
         raise ValueError("bin edges must be one-dimensionals with length > 2")
 
-    if np.any(np.diff(binning) <= 0.0):
+    if not np.all(np.diff(binning) > 0.0):  # also false for NaN
         raise ValueError("bin edges must increase monotonically")
 
     return binning
